@@ -326,4 +326,74 @@ theorem output_shape_axis (d : Deb) (x : Inputs) (t1 t2 t3 : Nat) (h : WellForme
   obtain ⟨_, e1, e2⟩ := h
   cases d <;> simp [outputShape, outputAxis, getArg, withTime, InputDesc.spatial] <;> simp_all [InputDesc.spatial]
 
+/-- **The contract as a complete decision, for every description of the three inputs**: `TypeError` iff some argument is
+    not an ndarray; otherwise `ValueError` iff some dtype cannot be converted, some argument is not 3-dimensional or the
+    spatial shapes differ; otherwise the call is accepted.  (No hypothesis: every combination of malformations is covered.) -/
+theorem outcome_classification (x : Inputs) : classOf (runChecks steps x) = specClass x := by
+  obtain ⟨o, hh, f⟩ := x
+  rcases firstBad_isSome_or_none (fun d => !d.isNdarray) (o, hh, f) with ⟨a, ha⟩ | hn
+  · rw [type_first _ a ha]; simp [classOf, specClass, ha]
+  obtain ⟨n1, n2, n3⟩ := firstBad_none _ o hh f hn
+  simp only [Bool.not_eq_false'] at n1 n2 n3
+  have hnd : ∀ b ∈ args3, (getArg (o, hh, f) b).isNdarray = true := by
+    intro b hb; simp [args3] at hb; rcases hb with rfl | rfl | rfl <;> simp [getArg, n1, n2, n3]
+  rcases firstBad_isSome_or_none (fun d => d.dtype.isUnconvertible) (o, hh, f) with ⟨a, ha⟩ | hu
+  · have := (dtype_second _ a hnd ha).1
+    simp [classOf, specClass, this, hn, ha]
+  obtain ⟨u1, u2, u3⟩ := firstBad_none _ o hh f hu
+  have hnu : ∀ b ∈ args3, (getArg (o, hh, f) b).isNdarray = true ∧ (getArg (o, hh, f) b).dtype.isUnconvertible = false := by
+    intro b hb; simp [args3] at hb; rcases hb with rfl | rfl | rfl <;> simp [getArg, n1, n2, n3, u1, u2, u3]
+  rcases firstBad_isSome_or_none (fun d => d.ndim != 3) (o, hh, f) with ⟨a, ha⟩ | hd
+  · rw [ndim_third _ a hnu ha]; simp [classOf, specClass, hn, hu, ha]
+  obtain ⟨d1, d2, d3⟩ := firstBad_none _ o hh f hd
+  simp only [bne_eq_false_iff_eq] at d1 d2 d3
+  have hall : ∀ b ∈ args3, (getArg (o, hh, f) b).isNdarray = true ∧ (getArg (o, hh, f) b).dtype.isUnconvertible = false ∧
+      (getArg (o, hh, f) b).ndim = 3 := by
+    intro b hb; simp [args3] at hb; rcases hb with rfl | rfl | rfl <;> simp [getArg, n1, n2, n3, u1, u2, u3, d1, d2, d3]
+  by_cases hs : o.spatial = hh.spatial ∧ o.spatial = f.spatial
+  · have wf : WellFormed (o, hh, f) := by
+      refine ⟨?_, hs.1, hs.2⟩
+      intro b hb
+      obtain ⟨q1, q2, q3⟩ := hall b hb
+      refine ⟨q1, ?_, q3⟩
+      intro e; rw [e] at q2; simp [DType.isUnconvertible] at q2
+    rw [accepted _ wf]
+    simp [classOf, specClass, hn, hu, hd, ← hs.1, ← hs.2]
+  · rw [shape_fourth _ hall hs]
+    simp only [classOf, specClass, hn, hu, hd]
+    rw [not_and_or] at hs
+    rcases hs with h1 | h1 <;> simp [h1]
+
+/-- the three classes all occur, and so do the three grounds of a `ValueError` -/
+example : specClass (good 40, { good 50 with isNdarray := false }, good 60) = .typeError ∧
+    specClass (good 40, { good 50 with shape := [50, 2] }, good 60) = .valueError ∧
+    specClass (good 40, { good 50 with dtype := .unconvertible }, good 60) = .valueError ∧
+    specClass (good 40, { good 50 with shape := [50, 2, 3] }, good 60) = .valueError ∧
+    specClass (good 40, { good 50 with dtype := .intBool, isMasked := true, hasInfNan := true }, good 60) = .accepted := by decide
+
+/-- **what reaches `apply_location`**: after an accepted call every one of the three arrays is a plain (unmasked) float
+    array of unchanged shape -/
+theorem reaches_locations_plain_float (x : Inputs) (h : WellFormed x) :
+    ∃ y, (runChecks steps x).result = .ok y ∧ ∀ a ∈ args3,
+      (getArg y a).dtype = .float ∧ (getArg y a).isMasked = false ∧ (getArg y a).isNdarray = (getArg x a).isNdarray ∧
+      (getArg y a).shape = (getArg x a).shape := by
+  rw [accepted x h]
+  refine ⟨_, rfl, ?_⟩
+  obtain ⟨o, hh, f⟩ := x
+  intro a ha
+  simp [args3] at ha
+  rcases ha with rfl | rfl | rfl <;> simp [mapInputs, getArg, convDesc] <;> (unfold unmask toFloat; split <;> split <;> rfl)
+
+/-- **where dates are consumed is read off the source**: the table `timeChecked` equals what the regenerated table of
+    time-check sites (class, method, guarding attribute, kind of check) and the regenerated "whose `apply_location` runs"
+    table determine, for all eight debiasers and all four window configurations; every site precedes the per-window
+    computation of its method and fills omitted arrays only in the modelled way. -/
+theorem timeChecked_from_sites : ∀ d ∈ Deb.all, ∀ r y : Bool,
+    timeChecked d ⟨r, y⟩ = checkedFromSites Gen.Contract.timeSites Gen.Contract.applyLocationOwner d ⟨r, y⟩ := by
+  rw [Lemmas.GenContract.timeSites, Lemmas.GenContract.applyLocationOwner]; decide
+
+theorem time_checks_precede_compute : ∀ s ∈ Gen.Contract.timeSites,
+    s.precedesCompute = true ∧ (s.infer = "all3-if-any-none" ∨ s.infer = "future-if-none") := by
+  rw [Lemmas.GenContract.timeSites]; decide
+
 end Props.C14
